@@ -11,6 +11,11 @@ stdout: JSON list of
                 "out": {"kind": "ok", "programs": [[[type, line, col, string, quote], ...], ...]}
                      | {"kind": "exc", "exc": class name, "jmc": bool, "tl": tokenizer.line, "tc": tokenizer.col,
                         "cited": [line, col|null] | null} } ...] }
+    "derived": [ {"fn": entry point, "fs": index, "macros": bool, "inner": index into calls of the first
+                  Tokenizer.parse call made by this entry point (or null), "in": [token...], "out": [token...]} ...] }
+      -- strengthening round 1: every OTHER tokenizer entry point that builds tokens from tokens
+         (parse_func_args, parse_list, parse_js_obj, parse_component, merge_tokens, split_keyword_token,
+         merge_vanilla_macro); token = [type, line, col, string, quote]
 Nothing of jmc is edited: the wrapper is installed from this process (no hooks in /repo).
 """
 import json
@@ -54,7 +59,7 @@ def main():
     from jmc.compile.exception import EXCEPTIONS
     from jmc.compile.header import Header
 
-    state = {"calls": None, "fs": None, "fs_idx": None}
+    state = {"calls": None, "fs": None, "fs_idx": None, "derived": None}
     orig_parse = T.Tokenizer.parse
 
     def tok_list(programs):
@@ -85,6 +90,76 @@ def main():
         return res
 
     T.Tokenizer.parse = parse
+
+    # ---- the other entry points: tokens built from tokens
+    def tk(t):
+        return [t.token_type.name, t.line, t.col, t.string, t.quote]
+
+    def fs_index(self):
+        fs = getattr(self, "file_string", None)
+        if fs is None:
+            return None
+        if fs not in state["fs_idx"]:
+            state["fs_idx"][fs] = len(state["fs"])
+            state["fs"].append(fs)
+        return state["fs_idx"][fs]
+
+    def flat(x):
+        """every Token inside a result (token | list | tuple | dict of those), in order"""
+        if isinstance(x, T.Token):
+            return [x]
+        if isinstance(x, dict):
+            return [t for v in x.values() for t in flat(v)]
+        if isinstance(x, (list, tuple)):
+            return [t for v in x for t in flat(v)]
+        return []
+
+    def wrap(name, ins, outs):
+        orig = getattr(T.Tokenizer, name)
+
+        def wrapper(self, *a, **kw):
+            if state["derived"] is None or len(state["derived"]) > 20000:
+                return orig(self, *a, **kw)
+            n0 = len(state["calls"]) if state["calls"] is not None else None
+            try:
+                in_toks = [tk(t) for t in ins(a, kw)]
+            except Exception:  # noqa
+                return orig(self, *a, **kw)
+            res = orig(self, *a, **kw)
+            try:
+                rec = {"fn": name, "fs": fs_index(self), "macros": bool(Header().macros),
+                       "inner": n0 if n0 is not None and len(state["calls"]) > n0 else None,
+                       "in": in_toks, "out": [tk(t) for t in outs(a, kw, res)]}
+                if name == "parse_func_args":
+                    rec["kwargs"] = {k: [tk(t) for t in v] for k, v in res[1].items()}
+                if rec["fs"] is not None:
+                    state["derived"].append(rec)
+            except Exception:  # noqa
+                pass
+            return res
+        setattr(T.Tokenizer, name, wrapper)
+
+    def first_arg(a, kw, key):
+        return a[0] if a else kw[key]
+
+    for nm in ("parse_func_args", "parse_list", "parse_js_obj", "parse_component"):
+        if hasattr(T.Tokenizer, nm):
+            wrap(nm, lambda a, kw: [first_arg(a, kw, "token")], lambda a, kw, res: flat(res))
+    if hasattr(T.Tokenizer, "merge_tokens"):
+        wrap("merge_tokens", lambda a, kw: list(first_arg(a, kw, "tokens")), lambda a, kw, res: flat(res))
+    if hasattr(T.Tokenizer, "split_keyword_token"):
+        wrap("split_keyword_token", lambda a, kw: [first_arg(a, kw, "token")], lambda a, kw, res: flat(res))
+    if hasattr(T.Tokenizer, "merge_vanilla_macro"):
+        def mvm_in(a, kw):
+            toks = first_arg(a, kw, "tokens")
+            k = a[1] if len(a) > 1 else kw["key_pos"]
+            return list(toks[k:k + 3])
+
+        def mvm_out(a, kw, res):
+            toks = first_arg(a, kw, "tokens")
+            k = a[1] if len(a) > 1 else kw["key_pos"]
+            return [toks[k]]
+        wrap("merge_vanilla_macro", mvm_in, mvm_out)
     signal.signal(signal.SIGALRM, _alarm)
     jobs = json.load(sys.stdin)
     real_stdout = sys.stdout
@@ -93,6 +168,7 @@ def main():
     for job in jobs:
         trace = job.get("trace", True)
         state["calls"] = [] if trace else None
+        state["derived"] = [] if trace else None
         state["fs"], state["fs_idx"] = [], {}
         signal.alarm(int(job.get("timeout", 10)))
         try:
@@ -115,6 +191,7 @@ def main():
         finally:
             signal.alarm(0)
         r["calls"] = state["calls"] or []
+        r["derived"] = state["derived"] or []
         r["file_strings"] = state["fs"]
         out.append(r)
     sys.stdout = real_stdout
